@@ -14,7 +14,7 @@ echo "demo cmd: $DEMO"
 echo "== apply"; git apply _seed/patch$K.diff || { echo "RESULT apply-failed"; exit 1; }
 go build ./... || { echo "RESULT build-failed"; git checkout -q -- .; exit 1; }
 ( eval "$DEMO" ) >_seed/demo$K.out 2>&1; C1=$?; echo "mutated demo exit=$C1"; tail -5 _seed/demo$K.out
-echo "== tests (main module)"; go test -vet=off -count=1 ./... 2>&1 | grep -v "^ok\|no test files" | tail -20; T1=${PIPESTATUS[0]}
+echo "== tests (main module)"; go test -vet=off -count=1 -timeout 90m ./... 2>&1 | grep -v "^ok\|no test files" | tail -20; T1=${PIPESTATUS[0]}
 echo "== tests (loader)"; (cd loader && go test -vet=off -count=1 ./... 2>&1 | grep -v "^ok\|no test files" | tail -5; exit ${PIPESTATUS[0]}); T2=$?
 git checkout -q -- .
 echo "tests exit main=$T1 loader=$T2"
